@@ -21,7 +21,7 @@ RULE = ("input = constructed lines (filler bytes that cannot start or continue a
         "give byte-identical stdout and the same status; (2) expected output = each line with "
         "exactly its tokens replaced by the reference result, everything else unchanged, same "
         "number and order of lines. The `small` flavour (hook: 16 lines x 64 bytes window, 32-byte "
-        "reads) carries the schedule search; the `prod` flavour runs the real-scale cases (> 16384 "
+        "reads) carries the schedule search; the `prod` flavour runs the real-scale cases (16385..16391 short lines without a final newline, > 16384 "
         "lines, > 16 MiB, 64 KiB lines). Sub-check context: lines of canonical dates, date-times and times "
         "(the default output of dconv) each wrapped in hostile context - followed by . , ; : ) x, an "
         "unfinished time (' 12:xx', 'T12:', ' 12:99', ' 24:00:01'), preceded by brackets / letters - and "
@@ -300,6 +300,9 @@ def realscale(ctx, shard, nshards):
     B = boundary()
     configs = [("manylines", 40000, 30), ("16MiB", 18000, 900), ("longlines", 300, 65536), ("mixed", 20000, 200),
                ("fatlines", 17000, 1150)]
+    # the end of the input right behind the 16384-line window: short lines, so that the lines behind
+    # the window arrive in the same (last) read, and no newline after the last one
+    configs += [("windowend", REAL["nlines"] + k, 6) for k in (2, 3, 7, 1)]
     if ctx.thorough:
         configs += [("manylines", 70000, 60), ("longlines", 40, 400000), ("16MiB", 30000, 900)]
     for name, nl, avg in configs[shard::nshards]:
@@ -309,6 +312,11 @@ def realscale(ctx, shard, nshards):
             ntok = 0 if L < 14 else rnd.choice((0, 1, 1, 2))
             lines.append(gen_line(rnd, B, L, min(ntok, L // 14)))
         data = b"".join(l + b"\n" for l, _ in lines)
+        if name == "windowend":
+            if lines[-1][0] == b"":
+                lines[-1] = gen_line(rnd, B, 5, 0)
+                data = b"".join(l + b"\n" for l, _ in lines)
+            data = data[:-1]
         tool = rnd.choice(list(TOOLS))
         args, conv = TOOLS[tool]
         exp = [expected_line(l, toks, conv) for l, toks in lines]
